@@ -220,6 +220,32 @@ pub fn c10_cell(spec: &Value) -> Value {
             }
             acc.c.samples.push(json!({"family": "mutations", "corpus": corpus.iter().map(|b| hex(b)).collect::<Vec<_>>()}));
         }
+        "long" => {
+            // long strings of 1-, 2-, 3- and 4-byte characters at every length up to 300 characters, with and without a
+            // one-byte offset, in every string position of every packet kind (fixed caps / char-boundary arithmetic)
+            let units: [&str; 4] = ["a", "\u{e9}", "\u{2713}", "\u{1F600}"];
+            let u = units[spec["unit"].as_u64().unwrap() as usize];
+            for n in 0..=300usize {
+                for pre in ["", "x"] {
+                    let s = format!("{pre}{}", u.repeat(n));
+                    let b = s.as_bytes();
+                    let mut inputs: Vec<Vec<u8>> = vec![];
+                    inputs.push([&[0u8, 5, 0, 1][..], b, &[0]].concat());
+                    inputs.push([&[0u8, 5, 0, 1][..], b].concat());
+                    inputs.push([&[0u8, 1][..], b, &[0], b"octet", &[0]].concat());
+                    inputs.push([&[0u8, 2][..], b"f", &[0], b, &[0]].concat());
+                    inputs.push([&[0u8, 1][..], b"f", &[0], b"octet", &[0], b, &[0], b"1", &[0]].concat());
+                    inputs.push([&[0u8, 1][..], b"f", &[0], b"octet", &[0], b"blksize", &[0], b, &[0]].concat());
+                    inputs.push([&[0u8, 6][..], b, &[0], b"1", &[0]].concat());
+                    inputs.push([&[0u8, 6][..], b"tsize", &[0], b, &[0]].concat());
+                    inputs.push([&[0u8, 3, 0, 1][..], b].concat());
+                    for i in inputs {
+                        acc.one(&i, "long");
+                    }
+                }
+            }
+            acc.c.samples.push(json!({"family": "long", "unit": u, "lengths": "0..=300 characters, offset 0/1, 9 packet shapes"}));
+        }
         other => return json!({"machinery_error": format!("unknown C10 family {other}")}),
     }
     acc.finish()
@@ -245,6 +271,9 @@ fn mutation_corpus() -> Vec<Vec<u8>> {
 pub fn c10_check(tier: Tier) -> Outcome {
     let nt = tokens().len();
     let mut cells = vec![json!({"family": "short"}), json!({"family": "mutations"})];
+    for u in 0..4 {
+        cells.push(json!({"family": "long", "unit": u}));
+    }
     for k in 0..16u32 {
         cells.push(json!({"family": "opcodes", "lo": k * 4096, "hi": (k + 1) * 4096}));
     }
@@ -274,7 +303,7 @@ pub fn c10_check(tier: Tier) -> Outcome {
     let mut out = Outcome::new("C10", "model_checking");
     out.absorb(res, ncells);
     out.rule = format!(
-        "exhaustive enumeration of datagrams: all strings of <= {free_len} tokens over a {nt}-token alphabet (NUL, opcode bytes 01..07, FF, digits, letter, '-', the four option names in mixed case, 2^64-1, 2^64){}; the empty and all 1-byte datagrams; all 65536 opcode prefixes x 14 tails; every truncation / byte replacement / deletion / NUL insertion of 11 valid encodings. Each input goes through the real Packet::deserialize under catch_unwind; non-trivial = accepted by the implementation (exercises mandatory-rejection and stability clauses). states = inputs, transitions = decoder calls.",
+        "exhaustive enumeration of datagrams: all strings of <= {free_len} tokens over a {nt}-token alphabet (NUL, opcode bytes 01..07, FF, digits, letter, '-', the four option names in mixed case, 2^64-1, 2^64){}; the empty and all 1-byte datagrams; all 65536 opcode prefixes x 14 tails; every truncation / byte replacement / deletion / NUL insertion of 11 valid encodings; strings of 0..=300 one-, two-, three- and four-byte characters (offset 0/1) in every string position of every packet kind. Each input goes through the real Packet::deserialize under catch_unwind; non-trivial = accepted by the implementation (exercises mandatory-rejection and stability clauses). states = inputs, transitions = decoder calls.",
         if op_len > 0 { format!(", plus all strings of <= {op_len} tokens that start with a valid opcode") } else { String::new() }
     );
     out.assumptions = vec![
